@@ -183,7 +183,7 @@ def r4_r5(tree, prog, rep):
     if rx is None:
         raise AnalysisError("Mailbox.rx_message not found")
     from ..cfg import build as _build, cmp_atom, truth_on_branch
-    g = _build(rx)
+    g = _build(rx, split=True)
     same_side = cmp_atom(lambda e: isinstance(e, ast.Name) and e.id == "side", lambda e: is_self_attr(e, "_side"))
     ours_n = g.call_nodes(lambda c: dotted(c.func) == "self.rx_message_ours")
     theirs_n = g.call_nodes(lambda c: dotted(c.func) == "self.rx_message_theirs")
